@@ -230,26 +230,47 @@ theorem C26_finding_republish_gap :
   have := h 3 (by simp) (by omega) 2 (by omega) (by omega)
   simp at this
 
-/-- FINDING (C26.republished-never-acknowledged).  The loop hands the republished messages to
-    the application but never queues an acknowledgement: the next PublishRequest carries
-    exactly the acknowledgements it would have carried without the republish. -/
-theorem C26_finding_republished_not_acked (c : Client) (id : Nat) (r : Rep.Result) :
-    requestAcks (Rep.intoClient c id r) = requestAcks c := by
+/-- (formerly the finding C26.republished-never-acknowledged, repaired.)  Every notification
+    received through Republish is queued for acknowledgement: the next PublishRequest carries
+    what was pending before plus exactly one acknowledgement per republished message, in the
+    order of delivery. -/
+theorem C26_republished_acked (c : Client) (id : Nat) (s : SubSeq) (r : Rep.Result)
+    (hs : findSub c.subs id = some s) :
+    requestAcks (Rep.intoClient c id r) = requestAcks c ++ r.delivered.map (fun q => ⟨id, q⟩) := by
   unfold Rep.intoClient
+  rw [hs]
+  simp only [requestAcks]
   split
-  · split <;> rfl
+  · rename_i h; simp [h]
   · rfl
 
-/-- … so after republishing 1/2 and 1/3 no acknowledgement at all — in particular none for
-    them — is in any later request, however the history continues, unless the message is
-    received (again) through Publish -/
-theorem C26_finding_republished_never_acked (es : List PubEvent) (a : Ack)
-    (hlater : ∀ c' e', (c', e') ∈
-        statesOf (Rep.intoClient ⟨[], [⟨1, 1, 2⟩]⟩ 1 (Rep.republish [2, 3] (Rep.honest [2, 3]) 10 2)) es →
-      received c' e' ≠ some a) :
-    ∀ r ∈ requests (Rep.intoClient ⟨[], [⟨1, 1, 2⟩]⟩ 1 (Rep.republish [2, 3] (Rep.honest [2, 3]) 10 2)) es, a ∉ r :=
-  absent_stays_absent es _ (by rw [show (Rep.intoClient ⟨[], [⟨1, 1, 2⟩]⟩ 1
-      (Rep.republish [2, 3] (Rep.honest [2, 3]) 10 2)).pending = [] from by decide]; simp) hlater
+/-- Exactly once, republished notifications included: against a server that answers from its
+    queue, the acknowledgements queued by the republish loop are pairwise different (one per
+    message), and once the server has answered the request that carries them — Good /
+    unknown for each — the following request acknowledges only what that response delivered:
+    each republished notification is acknowledged in exactly one PublishRequest. -/
+theorem C26_republished_acks_exactly_once (c : Client) (id : Nat) (s : SubSeq) (q avail : List Nat)
+    (n fuel : Nat) (hs : findSub c.subs id = some s) (hp : c.pending = []) (e : PubEvent)
+    (hw : wellAnswered (Rep.intoClient c id (Rep.republish avail (Rep.honest q) fuel n)) e = true) :
+    let c' := Rep.intoClient c id (Rep.republish avail (Rep.honest q) fuel n)
+    requestAcks c' = (Rep.republish avail (Rep.honest q) fuel n).delivered.map (fun x => ⟨id, x⟩) ∧
+    (requestAcks c').Nodup ∧
+    requestAcks (onEvent c' e) = (received c' e).toList := by
+  have h1 := C26_republished_acked c id s (Rep.republish avail (Rep.honest q) fuel n) hs
+  simp only [requestAcks, hp, List.nil_append] at h1
+  refine ⟨h1, ?_, exactly_once hw⟩
+  simp only [requestAcks] at h1 ⊢
+  rw [h1]
+  have hsorted := Rep.loop_sorted q avail fuel n [] [] List.Pairwise.nil (by simp)
+  exact List.Pairwise.map (fun x => (⟨id, x⟩ : Ack))
+    (fun a b (h : a < b) (he : (⟨id, a⟩ : Ack) = ⟨id, b⟩) => by
+      have : a = b := by simpa using he
+      omega) hsorted
+
+/-- the former counterexample: after republishing 1/2 and 1/3 the next request acknowledges both -/
+example :
+    requestAcks (Rep.intoClient ⟨[], [⟨1, 1, 2⟩]⟩ 1 (Rep.republish [2, 3] (Rep.honest [2, 3]) 10 2))
+      = [⟨1, 2⟩, ⟨1, 3⟩] := by decide
 
 /-- which loop outcomes make `monitor` fall back to recreating the subscription:
     BadSessionIDInvalid is swallowed by `republishSubscription`, every other error recreates -/
